@@ -52,6 +52,47 @@ SEEDS = [
     "start: a a a NEWLINE\na: NAME | NUMBER\n",
 ]
 EXTRA_INPUTS = ["v x = 1 , y = 2\n", "w x = 1 , y = 2\n", "x 1 y 2 ; z 3\n", "x\n", "1 2\n", "x y\n", "a c\n", "a b\n", "a\n", "< p , q > ; < r , s >\n", "1 2\n", "x 1\n", "x y\n", "1 x\n", "+ +\n", "+ + x\n", "\n", ", x\n", ", , x y\n", "a b c\n", "a b c d\n", "1 2 3\n", "( [ ] )\n", "a 1 b\n"]
+# action-free shapes the end-to-end theorem (C01_generated_parser_implements_the_source_grammar) must keep covering:
+# reads_back_as (rules g) (generate g) is evaluated on each; they also run through the differential checks above
+RB_SEEDS = [
+    "start: ','.item+ NEWLINE\nitem: NAME ('=' NUMBER)? | NUMBER+ | '(' [item] ')' STRING*\n",
+    "start: a b? NEWLINE\na: 'x' ~ 'y' | 'x' 'z'\nb: (NUMBER | NAME)+\n",
+    "start: !'if' NAME &NUMBER NUMBER+ ('+' NUMBER)* NEWLINE\n",
+    "start: ','.(a | b)+ NEWLINE\na: NAME\nb: NUMBER\n",
+    "start: x=NAME y=[NUMBER] ~ z='+' | NAME NUMBER\n",
+    "start: NAME NAME NAME NEWLINE\n",
+    "start: &&NAME NEWLINE\n",
+    "start: &&foo NEWLINE\nfoo: NUMBER\n",
+    "start: a a a NEWLINE\na: NAME | NUMBER\n",
+    "start: stmt* NEWLINE\nstmt: 'if' ~ NAME &&':' | &NAME expr [';']\nexpr: NAME !'=' NUMBER | NAME\n",
+    "start: (NAME) [(NUMBER)] ((NAME NUMBER))* NEWLINE\n",
+    "start: '+'.('(' ','.NAME+ ')')+ NEWLINE\n",
+    "start: SOFT_KEYWORD \"soft\" STRING OP NEWLINE\n",
+    "start: !(NUMBER+) n=NAME NEWLINE | k=NUMBER+ NEWLINE\n",
+    "start: !((NAME NUMBER)+) NUMBER NEWLINE | &(NAME+) NAME+ NEWLINE\n",
+    "start: a=(NUMBER+)? NAME NEWLINE\n",
+    "start: ',' a=([','+] NAME+ !NUMBER) NAME* NEWLINE\n",
+    "start: &&('+'+) NEWLINE | NAME NEWLINE\n",
+    "start: (NAME*)? [[NUMBER]] NEWLINE\n",
+    "start: ('if' | NUMBER)\n",
+    "start: x NEWLINE\nx: (a=NAME b=NUMBER | (NUMBER))\n",
+]
+RB_PRELUDE = """From Pegen Require Import Proofs.GenSem Proofs.CacheStable.
+Definition rb_ok (c : grammar * N) : bool :=
+  match run_gen (fst c) (snd c) with inl m => reads_back_as (rules (fst c)) m && no_left_rec m && no_wi m | inr _ => false end.
+"""
+
+
+def rb_term(text: str) -> str | None:
+    try:
+        g = g2c.read_grammar(text)
+        tr = g2c.Translator()
+        term = tr.grammar(g)
+    except (SyntaxError, g2c.Untranslatable):
+        return None
+    return f"({term}, {cN(len(tr.ids) + 1000)})"
+
+
 KF_LOOKAHEAD_FORCED = {"grammar": "start: &(&&'a') 'a' 'b'\n", "input": "a b\n"}
 
 
@@ -233,14 +274,14 @@ def run(chk: common.Check, tier: str):
     kn = gramgen.Knobs(terminals=("NAME", "NUMBER", "'+'", "','", "'if'", '"in"', "NEWLINE"), left_rec=False,
                        lookahead_terminals_only=True, p_ref=0.35,
                        action_pool=("[x, y]", "(x, 1)", "'lit'", "foo(x)", "foo()", "(name, 2)", "[literal]"))
-    texts = [t for t in SEEDS]
+    texts = [t for t in SEEDS + RB_SEEDS]
     want = 60 if tier == "quick" else 800
     tries = 0
     for t in gramgen.gen_grammars(r, kn, want * 12):
         tries += 1
         if well_formed(t):
             texts.append(t)
-            if len(texts) >= want + len(SEEDS):
+            if len(texts) >= want + len(SEEDS) + len(RB_SEEDS):
                 break
     # a second family over the less common token kinds (SOFT_KEYWORD, STRING, OP) and both keyword styles
     import dataclasses
@@ -302,6 +343,24 @@ def run(chk: common.Check, tier: str):
     elif failing is not None:
         chk.oblige(f"reference check: peg_eval (Sem/PegEval.v) agrees with the real generated parsers on {len(cases)} "
                    "well-formed grammars x enumerated inputs (value and tokens consumed; failure; forced-item error)", True)
+    # ---- instance conditions of the end-to-end theorem
+    floor = [rb_term(t) for t in RB_SEEDS]
+    bad = common.run_cases(chk, "rb_floor", prelude + RB_PRELUDE, "(grammar * N)", [x for x in floor if x], "rb_ok", shard=4, timeout=600)
+    if bad is not None:
+        chk.oblige("instance condition of C01_generated_parser_implements_the_source_grammar (and of its cached version): reads_back_as (rules g) (generate g) "
+                   f"= true, no leader, no *_without_invalid method, for the {len(RB_SEEDS)} action-free shapes of RB_SEEDS (gathers, repetitions, groups, optionals, "
+                   "lookaheads, cut, forced items, named items, keywords, wrappers over repetitions, flattened rules), evaluated in Coq on the generator model's output "
+                   "(the same output the K-gen comparison checks against the real generator's text)",
+                   not bad and all(floor), json.dumps([RB_SEEDS[i] for i in bad]))
+    rnd = [(t, rb_term(t)) for t in texts if t not in RB_SEEDS]
+    rnd = [(t, x) for t, x in rnd if x]
+    bad = common.run_cases(chk, "rb_rnd", prelude + RB_PRELUDE, "(grammar * N)", [x for _, x in rnd], "rb_ok", shard=40, timeout=900)
+    if bad is not None:
+        chk.bump("explored grammars", len(rnd))
+        chk.bump("explored grammars inside the class of the end-to-end theorem (reads_back_as = true)", len(rnd) - len(bad))
+        plain = [rnd[i][0] for i in bad if "{" not in rnd[i][0]]
+        chk.bump("action-free explored grammars outside that class", len(plain))
+        (common.GEN / "C01" / "rb_outside.json").write_text(json.dumps(plain, indent=1))
     res = rm.run_traced([{"grammar": KF_LOOKAHEAD_FORCED["grammar"], "inputs": [KF_LOOKAHEAD_FORCED["input"]], "configs": ["q1"]}])[0]
     if "results" in res and res["results"][0]["runs"]["q1"].get("value") is None:
         for kf in common.known_findings("C01"):
